@@ -72,6 +72,11 @@ func (eng) Cases(seed uint64, tier string) []core.CaseDesc {
 			}
 		}
 	}
+	for _, fnName := range funcNames() {
+		for _, ph := range funcPhases(fnName) {
+			add("func", fmt.Sprintf("func/%s/%s", fnName, ph), callP{"func", fnName, ph}, seed)
+		}
+	}
 	nl := 40
 	if tier == "thorough" {
 		nl = 1500
@@ -101,6 +106,11 @@ func (eng) Crash(c core.CaseDesc, tail string) *core.Violation {
 		_ = json.Unmarshal(c.P, &p)
 		name = p.Recv + "." + p.Method + "/" + p.Phase
 	}
+	if c.Kind == "func" {
+		var p callP
+		_ = json.Unmarshal(c.P, &p)
+		name = p.Method + "/" + p.Phase
+	}
 	first := "unknown"
 	for _, l := range strings.Split(tail, "\n") {
 		if strings.HasPrefix(l, "fatal error:") || strings.HasPrefix(l, "panic:") || strings.HasPrefix(l, "runtime:") {
@@ -117,7 +127,7 @@ func (eng) Crash(c core.CaseDesc, tail string) *core.Violation {
 func (eng) Hang(c core.CaseDesc, dump string) *core.Violation {
 	blocked, active := core.StableBlock(dump)
 	if len(blocked) > 0 && len(active) == 0 {
-		return &core.Violation{Sig: "C20/blocked/" + strings.TrimPrefix(c.ID, "call/"), What: fmt.Sprintf(
+		return &core.Violation{Sig: "C20/blocked/" + strings.TrimPrefix(strings.TrimPrefix(c.ID, "call/"), "func/"), What: fmt.Sprintf(
 			"the call never returned: parked in %v", blocked), Witness: dump}
 	}
 	return nil
@@ -290,6 +300,10 @@ func (eng) Run(c core.CaseDesc, tier string) *core.CaseResult {
 		var p callP
 		_ = json.Unmarshal(c.P, &p)
 		runCall(res, c, p, tier)
+	case "func":
+		var p callP
+		_ = json.Unmarshal(c.P, &p)
+		runFunc(res, c, p, tier)
 	case "law":
 		runLaws(res, c)
 	case "help":
@@ -552,9 +566,12 @@ func runSurface(res *core.CaseResult, c core.CaseDesc) {
 	res.Evals = int64(total)
 	res.Key("surface", total)
 	res.Key("surface-skipped", skipped)
+	nf, fsk := funcSurface()
 	res.Count("methods_reflected", int64(total))
 	res.Count("methods_skipped_documented_misuse", int64(skipped))
-	res.Sample = map[string]any{"methods_reflected": total, "skipped": sk}
+	res.Count("functions_listed", int64(nf))
+	res.Count("functions_skipped", int64(len(fsk)))
+	res.Sample = map[string]any{"methods_reflected": total, "skipped": sk, "functions_listed": nf, "functions_skipped": fsk}
 }
 
 func main() { core.Main(eng{}) }
